@@ -60,10 +60,9 @@ def r2(ctx, fs):
         T = 'smt::%s_theory' % th
         f = fs.fn(T + '::propagate', params=['lit'])
         env = LocalEnv(f)
-        dist = None
-        for n in f.nodes():
-            if n.get('k') == 'VarDecl' and n.get('name') == 'dist' and isinstance(n.get('init'), dict):
-                dist = canon(n['init'], env)
+        env.param_roles(['p'])
+        env.local_role('dist', lambda n, i: isinstance(i, tuple) and i[0] == 'mcall' and i[1].endswith('::at') and i[2] == T + '::var_dists')
+        dist = env.init_of('dist', subst=True)
         if dist is None:
             raise AnalysisBroken('%s: local `dist` (the constraint controlled by p) not found' % f.id)
         FR, TO, DD = ('.', dist, 'from'), ('.', dist, 'to'), ('.', dist, 'dist')
@@ -391,6 +390,8 @@ def r6(ctx, fs):
         for f in fs.fns_named(T + '::propagate'):
             env = LocalEnv(f)
             is_lit = 'lit' in f['params'][0]['t']
+            if is_lit:
+                env.param_roles(['p'])
             for w in [n for n in f.nodes() if n.get('k') == 'WhileStmt']:
                 which = _walk_name(f, w)
                 blk = None
